@@ -13,6 +13,10 @@ import numpy as _np
 import z3
 
 
+K_SAMPLES = 64
+SAMPLE_RNG = _np.random.default_rng(12345)
+
+
 class SymnpUnsupported(BaseException):
     """Engine limitation (never confused with the code's own exceptions)."""
 
@@ -240,9 +244,10 @@ def _lin_div(a, b):
 class Ctx:
     def __init__(self):
         self.mode = 'off'          # 'sym' | 'conc' | 'off'
-        self.feas_tmo = 1500       # ms, per feasibility query
+        self.feas_tmo = 1000       # ms, per feasibility query
         self.sqrt_tmo = 3000
         self.max_decisions = 400
+        self.defer_sides = True
         self.uses_pi = False
         self.stats = dict(feas_queries=0, feas_time=0.0, feas_unknown=0, rewrites=0, rewrite_queries=0)
         self.global_decl = {}      # name -> z3 var (harness inputs)
@@ -260,9 +265,13 @@ class Ctx:
         self.fresh = 0
         self.sqrt_cache = {}
         self.recipes = {}          # introduced var name -> recipe for numeric evaluation
-        self.pool = []             # candidate terms for certified sqrt rewriting
+        self.pool = [1.0]          # candidate terms for certified sqrt rewriting
         self.events = []
         self.inputs = {}           # declared input variables name -> z3 var
+        self.deferred = []
+        self.mask = _np.ones(K_SAMPLES, dtype=bool)   # samples known to satisfy the path so far
+        global SAMPLE_RNG
+        SAMPLE_RNG = _np.random.default_rng(12345 + 7 * getattr(self, 'sample_seed', 0))
         self.trig_reset()
 
     def trig_reset(self):
@@ -294,20 +303,55 @@ class Ctx:
         return v
 
     def feasible(self, extra):
+        """z3.sat / z3.unsat / z3.unknown for  path constraints + extra  (z3 first, then cvc5 which is much better at
+        refuting: incremental linearisation)"""
+        cons = self.constraints() + [extra]
+        # relevance filter: a subset of the constraints that is already unsatisfiable settles it (sound for `unsat`)
+        ev = vars_of(extra)
+        if ev:
+            sub = [c for c in cons[:-1] if vars_of(c) <= ev]
+            if sub and len(sub) < len(cons) - 1:
+                s0 = z3.Solver()
+                s0.set('timeout', 250)
+                for c in sub:
+                    s0.add(c)
+                s0.add(extra)
+                t = time.time()
+                r0 = s0.check()
+                self.stats['feas_time'] += time.time() - t
+                if r0 == z3.unsat:
+                    self.stats['feas_queries'] += 1
+                    self.stats['subset_unsat'] = self.stats.get('subset_unsat', 0) + 1
+                    return z3.unsat
         s = z3.Solver()
-        s.set('timeout', self.feas_tmo)
-        for c in self.constraints():
+        s.set('timeout', max(100, self.feas_tmo // 4))
+        for c in cons:
             s.add(c)
-        s.add(extra)
         t = time.time()
         r = s.check()
+        if r == z3.unknown:
+            from . import solve
+            st, _ = solve.cvc5_inproc(cons, self.feas_tmo)
+            self.stats['cvc5_feas'] = self.stats.get('cvc5_feas', 0) + 1
+            if st == 'unsat':
+                r = z3.unsat
+            elif st == 'sat':
+                r = z3.sat
         self.stats['feas_time'] += time.time() - t
         self.stats['feas_queries'] += 1
         if r == z3.unknown:
             self.stats['feas_unknown'] += 1
         return r
 
-    def branch(self, cond):
+    def sample_sides(self, fv):
+        """(true side witnessed, false side witnessed) among the shadow samples that satisfy the path"""
+        if fv is None or not self.mask.any():
+            return False, False
+        with _np.errstate(all='ignore'):
+            fv = _np.asarray(fv, dtype=bool)
+            return bool((fv & self.mask).any()), bool((~fv & self.mask).any())
+
+    def branch(self, cond, fv=None):
         if self.mode != 'sym':
             raise SymnpUnsupported("symbolic branch outside symbolic mode")
         cond = z3.simplify(cond)
@@ -325,18 +369,30 @@ class Ctx:
         else:
             if self.pos >= self.max_decisions:
                 raise SymnpUnsupported("decision bound exceeded")
-            rt = self.feasible(cond)
-            if rt == z3.unsat:
-                val, forced = False, True
+            t_ok, f_ok = self.sample_sides(fv)
+            self.stats['sample_hits'] = self.stats.get('sample_hits', 0) + int(t_ok) + int(f_ok)
+            if self.defer_sides and (t_ok != f_ok):
+                # one side witnessed by samples, the other not: take the witnessed side now; the other side becomes a
+                # *deferred side*: an obligation ("this side is infeasible") for the parallel solver pool, explored in a
+                # later round if it is not refuted
+                val, forced = t_ok, True
+                self.deferred.append(dict(prefix=list(self.schedule[:self.pos]) + [(not val, True)],
+                                          bad=(ncond if val else cond), snap=self.snap()))
+                self.stats['deferred_sides'] = self.stats.get('deferred_sides', 0) + 1
             else:
-                rf = self.feasible(z3.Not(cond))
-                if rf == z3.unsat:
-                    val, forced = True, True
+                rt = z3.sat if t_ok else self.feasible(cond)
+                if rt == z3.unsat:
+                    val, forced = False, True
                 else:
-                    val, forced = True, False
+                    rf = z3.sat if f_ok else self.feasible(z3.Not(cond))
+                    if rf == z3.unsat:
+                        val, forced = True, True
+                    else:
+                        val, forced = True, False
             self.schedule.append((val, forced))
         self.pos += 1
         self.pc.append(cond if val else z3.Not(cond))
+        mask_and(None if fv is None else (fv if val else ~_np.asarray(fv, dtype=bool)))
         self.dcache[key] = (val, cond)        # the stored term keeps the AST id alive (ids are recycled otherwise)
         self.dcache[nkey] = (not val, ncond)
         return val
@@ -352,6 +408,51 @@ CTX = Ctx()
 
 
 # ----------------------------------------------------------------------------------------------
+# Shadow samples: every SR / SymBool optionally carries the float values it takes on K random inputs of the harness
+# domain. They are used ONLY to answer "is this branch side feasible?" without a solver call (a sample that satisfies
+# the path so far and the condition is a witness of feasibility). Infeasibility and every obligation is always
+# decided by the solver.
+# ----------------------------------------------------------------------------------------------
+
+
+def fv_of(x):
+    """shadow value of a python number or SR (None when unknown)"""
+    if isinstance(x, SR):
+        return x.fv
+    if isinstance(x, (bool, _np.bool_)):
+        return builtins.float(x)
+    if _is_num(x):
+        return builtins.float(x)
+    return None
+
+
+def _fop(op, *xs):
+    vs = []
+    for x in xs:
+        v = fv_of(x)
+        if v is None:
+            return None
+        vs.append(v)
+    with _np.errstate(all='ignore'):
+        try:
+            r = op(*vs)
+        except Exception:
+            return None
+    if not isinstance(r, _np.ndarray):
+        r = _np.full(K_SAMPLES, r)
+    return r
+
+
+def mask_and(fv):
+    """restrict the set of samples known to satisfy the path"""
+    if fv is None:
+        CTX.mask = _np.zeros(K_SAMPLES, dtype=bool)
+    else:
+        with _np.errstate(all='ignore'):
+            CTX.mask = CTX.mask & _np.asarray(fv, dtype=bool)
+
+
+# ----------------------------------------------------------------------------------------------
 # Symbolic booleans and reals
 # ----------------------------------------------------------------------------------------------
 def _b(o):
@@ -364,37 +465,55 @@ def _b(o):
     raise SymnpUnsupported(f"bool op with {type(o)}")
 
 
-class SymBool:
-    __slots__ = ('e',)
+def _bfv(o):
+    if isinstance(o, SymBool):
+        return o.fv
+    if isinstance(o, (bool, _np.bool_)):
+        return _np.full(K_SAMPLES, bool(o))
+    if isinstance(o, SR):
+        return None if o.fv is None else (o.fv != 0)
+    return None
 
-    def __init__(self, e):
+
+def _bop(op, a, b):
+    fa, fb = _bfv(a), _bfv(b)
+    if fa is None or fb is None:
+        return None
+    return op(fa, fb)
+
+
+class SymBool:
+    __slots__ = ('e', 'fv')
+
+    def __init__(self, e, fv=None):
         self.e = e
+        self.fv = fv
 
     def __bool__(self):
-        return CTX.branch(self.e)
+        return CTX.branch(self.e, self.fv)
 
     def __and__(self, o):
         if isinstance(o, _np.ndarray):
             return NotImplemented
-        return SymBool(z3.And(self.e, _b(o)))
+        return SymBool(z3.And(self.e, _b(o)), _bop(_np.logical_and, self, o))
 
     __rand__ = __and__
 
     def __or__(self, o):
         if isinstance(o, _np.ndarray):
             return NotImplemented
-        return SymBool(z3.Or(self.e, _b(o)))
+        return SymBool(z3.Or(self.e, _b(o)), _bop(_np.logical_or, self, o))
 
     __ror__ = __or__
 
     def __invert__(self):
-        return SymBool(z3.Not(self.e))
+        return SymBool(z3.Not(self.e), None if self.fv is None else ~self.fv)
 
     def __eq__(self, o):
-        return SymBool(self.e == _b(o))
+        return SymBool(self.e == _b(o), _bop(_np.equal, self, o))
 
     def __ne__(self, o):
-        return SymBool(self.e != _b(o))
+        return SymBool(self.e != _b(o), _bop(_np.not_equal, self, o))
 
     def __hash__(self):
         return id(self)
@@ -416,12 +535,13 @@ def _const_of(t):
 
 class SR:
     """symbolic real: z3 term + optional linear angle form + factored multiplicative form"""
-    __slots__ = ('t', 'lin', 'fac')
+    __slots__ = ('t', 'lin', 'fac', 'fv')
 
-    def __init__(self, t, lin=None, fac=None):
+    def __init__(self, t, lin=None, fac=None, fv=None):
         self.t = t
         self.lin = lin
         self.fac = fac   # (coef Fraction, {id: (term, power)}) or None
+        self.fv = fv     # shadow sample values (numpy array of K floats) or None
 
     def __repr__(self):
         s = str(self.t)
@@ -455,7 +575,7 @@ class SR:
             return NotImplemented
         if _is_num(o) and o == 0:
             return self
-        return SR(self.t + lift(o), _lin_add(self.lin, Lin.of(o)))
+        return SR(self.t + lift(o), _lin_add(self.lin, Lin.of(o)), None, _fop(_np.add, self, o))
 
     __radd__ = __add__
 
@@ -464,14 +584,14 @@ class SR:
             return NotImplemented
         if _is_num(o) and o == 0:
             return self
-        return SR(self.t - lift(o), _lin_add(self.lin, Lin.of(o), -1))
+        return SR(self.t - lift(o), _lin_add(self.lin, Lin.of(o), -1), None, _fop(_np.subtract, self, o))
 
     def __rsub__(self, o):
         if _arr(o):
             return NotImplemented
         if _is_num(o) and o == 0:
             return -self
-        return SR(lift(o) - self.t, _lin_add(Lin.of(o), self.lin, -1))
+        return SR(lift(o) - self.t, _lin_add(Lin.of(o), self.lin, -1), None, _fop(_np.subtract, o, self))
 
     def __mul__(self, o):
         if _arr(o):
@@ -487,7 +607,7 @@ class SR:
             fo = F(repr(builtins.float(o))) if not isinstance(o, (int, _np.integer, F)) else F(int(o)) if not isinstance(o, F) else o
             pm = pi_multiple(builtins.float(o)) if isinstance(o, (builtins.float, _np.floating)) else None
             fac = (c * fo, fd) if pm is None else None
-            return SR(self.t * lift(o), _lin_mul(self.lin, Lin.of(o)), fac)
+            return SR(self.t * lift(o), _lin_mul(self.lin, Lin.of(o)), fac, _fop(_np.multiply, self, o))
         if isinstance(o, SR):
             c1, f1 = self._fac()
             c2, f2 = o._fac()
@@ -506,7 +626,7 @@ class SR:
                     fd[k] = (t, p)
             fac = (c1 * c2, fd)
             t = SR._from_fac(*fac) if cancel else self.t * o.t
-            return SR(t, _lin_mul(self.lin, o.lin), fac)
+            return SR(t, _lin_mul(self.lin, o.lin), fac, _fop(_np.multiply, self, o))
         return SR(self.t * lift(o), None)
 
     __rmul__ = __mul__
@@ -524,12 +644,12 @@ class SR:
                 raise SymnpUnsupported("division by concrete zero")
             if o == 1:
                 return self
-            return SR(self.t / lift(o), _lin_div(self.lin, Lin.of(o)), self._scaled_fac(o))
+            return SR(self.t / lift(o), _lin_div(self.lin, Lin.of(o)), self._scaled_fac(o), _fop(_np.divide, self, o))
         if isinstance(o, SR):
             cst = _const_of(o.t)
             if cst is not None and cst != 0:
-                return SR(self.t / o.t, _lin_div(self.lin, Lin({}, PiPoly({0: cst}))), None)
-            _record_div(o.t)
+                return SR(self.t / o.t, _lin_div(self.lin, Lin({}, PiPoly({0: cst}))), None, _fop(_np.divide, self, o))
+            _record_div(o.t, o.fv)
             rc, rf = o._recip()
             c1, f1 = self._fac()
             fd = dict(f1)
@@ -547,7 +667,7 @@ class SR:
                     fd[k] = (t, p)
             fac = (c1 * rc, fd)
             t = SR._from_fac(*fac) if cancel else self.t / o.t
-            return SR(t, _lin_div(self.lin, o.lin), fac)
+            return SR(t, _lin_div(self.lin, o.lin), fac, _fop(_np.divide, self, o))
         raise SymnpUnsupported(f"div by {type(o)}")
 
     def _scaled_fac(self, o):
@@ -561,26 +681,26 @@ class SR:
         if _arr(o):
             return NotImplemented
         if _is_num(o) and o == 0:
-            _record_div(self.t)
+            _record_div(self.t, self.fv)
             return 0.0
-        _record_div(self.t)
+        _record_div(self.t, self.fv)
         rc, rf = self._recip()
         if _is_num(o) and not (isinstance(o, (builtins.float, _np.floating)) and pi_multiple(builtins.float(o))):
             fo = F(repr(builtins.float(o))) if not isinstance(o, (int, _np.integer)) else F(int(o))
             fac = (rc * fo, rf)
         else:
             fac = None
-        return SR(lift(o) / self.t, None, fac)
+        return SR(lift(o) / self.t, None, fac, _fop(_np.divide, o, self))
 
     def __neg__(self):
         c, fd = self._fac()
-        return SR(-self.t, None if self.lin is None else self.lin.scale(PiPoly({0: F(-1)})), (-c, fd))
+        return SR(-self.t, None if self.lin is None else self.lin.scale(PiPoly({0: F(-1)})), (-c, fd), None if self.fv is None else -self.fv)
 
     def __pos__(self):
         return self
 
     def __abs__(self):
-        return lazy_if(self.t >= 0, self, -self)
+        return lazy_if(self.t >= 0, self, -self, None if self.fv is None else self.fv >= 0)
 
     def __pow__(self, o):
         if isinstance(o, SR):
@@ -613,42 +733,42 @@ class SR:
     def __lt__(self, o):
         if _arr(o):
             return NotImplemented
-        return SymBool(self.t < lift(o))
+        return SymBool(self.t < lift(o), _fop(_np.less, self, o))
 
     def __le__(self, o):
         if _arr(o):
             return NotImplemented
-        return SymBool(self.t <= lift(o))
+        return SymBool(self.t <= lift(o), _fop(_np.less_equal, self, o))
 
     def __gt__(self, o):
         if _arr(o):
             return NotImplemented
-        return SymBool(self.t > lift(o))
+        return SymBool(self.t > lift(o), _fop(_np.greater, self, o))
 
     def __ge__(self, o):
         if _arr(o):
             return NotImplemented
-        return SymBool(self.t >= lift(o))
+        return SymBool(self.t >= lift(o), _fop(_np.greater_equal, self, o))
 
     def __eq__(self, o):
         if _arr(o):
             return NotImplemented
         if o is None or isinstance(o, str):
             return False
-        return SymBool(self.t == lift(o))
+        return SymBool(self.t == lift(o), _fop(_np.equal, self, o))
 
     def __ne__(self, o):
         if _arr(o):
             return NotImplemented
         if o is None or isinstance(o, str):
             return True
-        return SymBool(self.t != lift(o))
+        return SymBool(self.t != lift(o), _fop(_np.not_equal, self, o))
 
     def __hash__(self):
         return id(self)
 
     def __bool__(self):
-        return CTX.branch(self.t != 0)
+        return CTX.branch(self.t != 0, None if self.fv is None else self.fv != 0)
 
     def __float__(self):
         raise SymnpUnsupported("concretisation (float()) of a symbolic real")
@@ -700,7 +820,8 @@ class SR:
         return self
 
 
-def _record_div(den):
+def _record_div(den, fv=None):
+    mask_and(None if fv is None else fv != 0)
     den_s = z3.simplify(den)
     c = _const_of(den_s)
     if c is not None:
@@ -715,11 +836,17 @@ def sym_sqrt(x):
     if not isinstance(x, SR):
         x = builtins.float(x)
         return math.sqrt(x) if x >= 0 else builtins.float('nan')
-    key = x.t.get_id()
+    xs = z3.simplify(x.t)
+    from . import algcert
+    key = algcert.canon_key(xs)
+    if key is None:
+        key = xs.get_id()
+    else:
+        key = ('sqrt',) + key
     hit = CTX.sqrt_cache.get(key)
     if hit is not None:
         return hit[0]
-    cst = _const_of(z3.simplify(x.t))
+    cst = _const_of(xs)
     if cst is not None:
         if cst < 0:
             CTX.obligation('sqrt', z3.BoolVal(True), 'sqrt of negative constant')
@@ -731,18 +858,35 @@ def sym_sqrt(x):
     # even powers in factored form: sqrt(c^2 * X^2) etc. handled only through certified rewriting
     for cand in CTX.pool:
         ct = cand.t if isinstance(cand, SR) else lift(cand)
-        s = z3.Solver()
-        s.set('timeout', CTX.sqrt_tmo)
-        for c in CTX.constraints():
-            s.add(c)
-        s.add(z3.Or(x.t != ct * ct, ct < 0))
         t0 = time.time()
-        rr = s.check()
-        CTX.stats['feas_time'] += time.time() - t0
         CTX.stats['rewrite_queries'] += 1
-        if rr == z3.unsat:
+        cons = CTX.constraints()
+        ok = False
+        nonneg = _const_of(ct) is not None and _const_of(ct) >= 0
+        from . import algcert
+        cert, _info = algcert.try_certify(cons, z3.Not(x.t == ct * ct), budget_s=2.0)
+        if cert:
+            if nonneg:
+                ok = True
+            else:
+                s = z3.Solver()
+                s.set('timeout', CTX.sqrt_tmo)
+                for c in cons:
+                    s.add(c)
+                s.add(ct < 0)
+                ok = s.check() == z3.unsat
+        elif not str(_info).startswith('normal form not zero'):
+            s = z3.Solver()
+            s.set('timeout', CTX.sqrt_tmo)
+            for c in cons:
+                s.add(c)
+            s.add(z3.Or(x.t != ct * ct, ct < 0))
+            ok = s.check() == z3.unsat
+        CTX.stats['feas_time'] += time.time() - t0
+        if ok:
             out = cand
-            CTX.sqrt_cache[key] = (out, x.t)
+            mask_and(None if x.fv is None else x.fv >= 0)
+            CTX.sqrt_cache[key] = (out, xs)
             CTX.stats['rewrites'] += 1
             CTX.events.append(('sqrt-rewrite', str(ct)[:80]))
             return out
@@ -750,8 +894,9 @@ def sym_sqrt(x):
     r = CTX.newvar('sqrt', ('sqrt', x.t))
     CTX.assumes.append(x.t >= 0)
     CTX.defs += [r >= 0, r * r == x.t]
-    out = SR(r)
-    CTX.sqrt_cache[key] = (out, x.t)
+    mask_and(None if x.fv is None else x.fv >= 0)
+    out = SR(r, None, None, _fop(_np.sqrt, x))
+    CTX.sqrt_cache[key] = (out, xs)
     return out
 
 
@@ -764,7 +909,7 @@ def sym_cbrt(x):
         return hit[0]
     r = CTX.newvar('cbrt', ('cbrt', x.t))
     CTX.defs += [r * r * r == x.t]
-    out = SR(r)
+    out = SR(r, None, None, _fop(_np.cbrt, x))
     CTX.sqrt_cache[key] = (out, x.t)
     return out
 
@@ -778,23 +923,22 @@ def sym_mod(x, m):
     ki = z3.Int(f"modk_i!{CTX.fresh}")
     r = lift(x) - mt * k
     CTX.defs += [k == z3.ToReal(ki), z3.If(mt > 0, z3.And(r >= 0, r < mt), z3.And(r <= 0, r > mt))]
-    lin = None
-    return SR(r, lin)
+    return SR(r, None, None, _fop(_np.mod, x, m))
 
 
 def sym_sign(x):
     if not isinstance(x, SR):
         return builtins.float(_np.sign(x))
-    return SR(z3.If(x.t > 0, z3.RealVal(1), z3.If(x.t < 0, z3.RealVal(-1), z3.RealVal(0))))
+    return SR(z3.If(x.t > 0, z3.RealVal(1), z3.If(x.t < 0, z3.RealVal(-1), z3.RealVal(0))), None, None, _fop(_np.sign, x))
 
 
 def sym_abs(x):
     if not isinstance(x, SR):
         return abs(x)
-    return lazy_if(x.t >= 0, x, -x)
+    return lazy_if(x.t >= 0, x, -x, None if x.fv is None else x.fv >= 0)
 
 
-def _decided(cond):
+def _decided(cond, fv=None):
     """True/False if the context forces the condition (cheap feasibility queries), else None"""
     cond = z3.simplify(cond)
     if z3.is_true(cond):
@@ -806,41 +950,47 @@ def _decided(cond):
     if hit is not None:
         return hit[0]
     res = None
-    if CTX.feasible(cond) == z3.unsat:
+    t_ok, f_ok = CTX.sample_sides(fv)
+    if t_ok and f_ok:
+        res = None
+    elif not t_ok and CTX.feasible(cond) == z3.unsat:
         res = False
-    elif CTX.feasible(z3.Not(cond)) == z3.unsat:
+    elif not f_ok and CTX.feasible(z3.Not(cond)) == z3.unsat:
         res = True
     CTX.sqrt_cache[key] = (res, cond)
     return res
 
 
-def lazy_if(cond, a, b):
+def lazy_if(cond, a, b, cfv=None):
     """If(cond, a, b) simplified when the path context decides cond"""
-    d = _decided(cond)
+    d = _decided(cond, cfv)
     if d is True:
         return a
     if d is False:
         return b
-    return SR(z3.If(cond, lift(a), lift(b)))
+    fv = None
+    if cfv is not None:
+        fv = _fop(lambda x, y: _np.where(cfv, x, y), a, b)
+    return SR(z3.If(cond, lift(a), lift(b)), None, None, fv)
 
 
 def sym_clip(x, lo, hi):
     if not (isinstance(x, SR) or isinstance(lo, SR) or isinstance(hi, SR)):
         return min(max(x, lo), hi)
     t, l, h = lift(x), lift(lo), lift(hi)
-    return lazy_if(t < l, lo, lazy_if(t > h, hi, x))
+    return lazy_if(t < l, lo, lazy_if(t > h, hi, x, _fop(_np.greater, x, hi)), _fop(_np.less, x, lo))
 
 
 def sym_min(a, b):
     if not (isinstance(a, SR) or isinstance(b, SR)):
         return min(a, b)
-    return lazy_if(lift(a) <= lift(b), a, b)
+    return lazy_if(lift(a) <= lift(b), a, b, _fop(_np.less_equal, a, b))
 
 
 def sym_max(a, b):
     if not (isinstance(a, SR) or isinstance(b, SR)):
         return max(a, b)
-    return lazy_if(lift(a) >= lift(b), a, b)
+    return lazy_if(lift(a) >= lift(b), a, b, _fop(_np.greater_equal, a, b))
 
 
 def isclose_term(a, b, rtol=1e-5, atol=1e-8):
@@ -854,7 +1004,7 @@ def isclose_term(a, b, rtol=1e-5, atol=1e-8):
 def sym_isclose(a, b, rtol=1e-5, atol=1e-8):
     if not (isinstance(a, SR) or isinstance(b, SR)):
         return bool(_np.isclose(a, b, rtol=rtol, atol=atol))
-    return SymBool(isclose_term(a, b, rtol, atol))
+    return SymBool(isclose_term(a, b, rtol, atol), _fop(lambda x, y: _np.abs(x - y) <= atol + rtol * _np.abs(y), a, b))
 
 
 # ----------------------------------------------------------------------------------------------
@@ -862,12 +1012,13 @@ def sym_isclose(a, b, rtol=1e-5, atol=1e-8):
 # ----------------------------------------------------------------------------------------------
 class PathResult:
     __slots__ = ('schedule', 'domain', 'pc', 'defs', 'assumes', 'oblig', 'outcome', 'value', 'checks',
-                 'events', 'recipes', 'uses_pi', 'inputs', 'observed')
+                 'events', 'recipes', 'uses_pi', 'inputs', 'observed', 'atoms', 'units', 'deferred')
 
 
-def explore(fn, max_paths=64, on_path=None):
-    """DFS over branch decisions. fn() is re-executed per path. Returns (paths, truncated)."""
-    stack = [[]]
+def explore(fn, max_paths=64, on_path=None, roots=None):
+    """DFS over branch decisions. fn() is re-executed per path. Returns (paths, truncated).
+    roots: schedule prefixes to start from (second-round exploration of deferred sides)"""
+    stack = [list(r) for r in roots] if roots else [[]]
     out = []
     truncated = False
     restarts = 0
@@ -903,6 +1054,9 @@ def explore(fn, max_paths=64, on_path=None):
         p.recipes = dict(CTX.recipes)
         p.uses_pi = CTX.uses_pi
         p.inputs = dict(CTX.inputs)
+        p.atoms = {k: dict(rng=v['rng'], unit=v['unit'], var=v['var']) for k, v in CTX.atoms.items()}
+        p.units = dict(CTX.units)
+        p.deferred = [d for d in CTX.deferred if len(d['prefix']) > len(sched)]   # sides decided on this run only
         out.append(p)
         if on_path is not None:
             on_path(p)
@@ -913,19 +1067,58 @@ def explore(fn, max_paths=64, on_path=None):
     return out, truncated
 
 
+_VARS_CACHE = {}
+
+
+def vars_of(t):
+    """frozenset of the names of the uninterpreted constants of a term (cached by AST id; the term is kept alive)"""
+    key = t.get_id()
+    hit = _VARS_CACHE.get(key)
+    if hit is not None:
+        return hit[0]
+    out = set()
+    seen = set()
+    stack = [t]
+    n = 0
+    while stack:
+        x = stack.pop()
+        i = x.get_id()
+        if i in seen:
+            continue
+        seen.add(i)
+        n += 1
+        if n > 20000:
+            out.add('<too-large>')
+            break
+        if z3.is_app(x):
+            if x.num_args() == 0:
+                if x.decl().kind() == z3.Z3_OP_UNINTERPRETED:
+                    out.add(x.decl().name())
+            else:
+                stack.extend(x.children())
+    fs = frozenset(out)
+    if len(_VARS_CACHE) > 200000:
+        _VARS_CACHE.clear()
+    _VARS_CACHE[key] = (fs, t)
+    return fs
+
+
 def choose(n, tag='c'):
     """nondeterministic choice in range(n): forks the path (each alternative is explored)"""
     CTX.fresh += 1
     k = CTX.fresh
     for i in range(n - 1):
         b = z3.Bool(f"choice_{tag}_{k}_{i}")
-        if CTX.branch(b):
+        keep = CTX.mask.copy()
+        r = CTX.branch(b)
+        CTX.mask = keep                     # a free choice does not constrain the inputs
+        if r:
             return i
     return n - 1
 
 
 def fresh_real(pfx='f', recipe=None):
-    return SR(CTX.newvar(pfx, recipe))
+    return SR(CTX.newvar(pfx, recipe))       # no shadow: conditions on it fall back to the solver
 
 
 def fresh_sign(pfx='sgn'):
